@@ -24,6 +24,7 @@ fn main() {
         all.push(duo::lib::early_shutdown());
         all.push(duo::lib::mtu_drop_close(700, None, 6_000));
         all.push(duo::lib::small_rx_probing(1000));
+        all.push(duo::lib::paced_tiny_writes());
         all.push(duo::lib::acceptor_closes_first());
         all.push(duo::lib::wrapped_drop_close());
         all.push(duo::lib::mtu_transfer(700, Some(600), None, 9000, false));
